@@ -66,7 +66,12 @@ MORE['C18'] = dict(
           "pool, tombstones and signature store the value they were), exec_refused_is_noop, approve_refused_is_noop, verify_never_panics, expansion_never_panics (TasksToMessages ends with a list or an error for every task list, reversed / negative / astronomically large ranges included), "
           "panic_only_from_callbacks. Props/C18Reinit.lean: node_never_panics_run_reinit (the same with re-initialisation requests anywhere in the history: no step of any replay panics; nodeOK_reinit). Props/C18Air.lean, over facts the translator reads off airgapped.go on every run (Gen/AirGlue.lean): order_in_source_air (the operation is handled, then logged, then the result file is opened), fatal_leaves_log / fatal_then_restart (an operation that fails fatally writes nothing durable: a restart rebuilds what it would have rebuilt before), log_first_poisons_replay (with the log written first one malformed file makes every later replay fail: explicit witness), dispatch_recovers (a panic in a handler becomes a handler error), handled_have_error_event, error_events_accepted (the error event of every dispatched operation type is a public row of the generated tables in the state the operation is issued in), replay_does_not_log. In the models a Go panic is the explicit outcome `panic`; that the models place it exactly where the Go code can panic is tied by fsmdiff/nodediff (every panic of the real code under recover() is compared). Not modelled beyond that: the re-initialisation "
           "handler, the answer path's write of the public polynomial into a round without key-generation data, and the airgapped handlers (kyber, ECIES), which are covered by fault injection on the real machine: airdiff. Tie: nodediff (every mutation kind incl. junk rounds, "
-          "unknown events, garbage, negative ids, replays, cancelled-and-restarted signing rounds; byte-exact state comparison after every rejected message), sszdiff, airdiff."),
+          "unknown events, garbage, negative ids, replays, cancelled-and-restarted signing rounds; byte-exact state comparison after every rejected message; signed signing proposals with negative, reversed "
+          "and out-of-list ranges; structure-aware JSON variants of every payload, signed by the sender: each field null / of another type / missing / out-of-range number, nulls inside arrays, a second "
+          "spelling of a field name before, after or instead of the field - about 570 per quick run, chosen coverage-first over (event, field, value); a re-initialisation file without a key for one "
+          "participant followed by that participant's messages), sszdiff (hostile ranges under a memory/time watchdog), airdiff. The decoding of a payload is an oracle of the model "
+          "(types.FSMRequestFromMessage, run by the harness): what the model cannot exhibit is a panic INSIDE decoding or validation of a shape no generator produces - the fix 7f6bdd6 (a JSON null "
+          "in the participant list) was such a case and is now generated on every run."),
     ref='7 C18', note=NODE_NOTE + " Airgapped machine: real code under monitors only; no model of the handlers.")
 
 MORE['C07'] = dict(
